@@ -642,6 +642,11 @@ pub fn generate(seed: u64) -> Scenario {
         if spec.variant == Variant::Charwise && std::str::from_utf8(&h).is_err() {
             h = String::from_utf8_lossy(&h).into_owned().into_bytes();
         }
+        if rng.chance(1, 40) {
+            // a length that is exactly a multiple of a buffer size (windows, blocks, pages)
+            let exact = *rng.pick(&[256usize, 1024, 4096, 4096, 8192, 12288]);
+            h = exact_len(&mut rng, &spec, h, exact);
+        }
         streams.push(h);
     }
     let nh = *rng.pick(&[1usize, 1, 2, 2, 3, 4]);
@@ -736,6 +741,53 @@ pub fn generate(seed: u64) -> Scenario {
     }
 }
 
+/// Repeat / trim `h` to exactly `n` bytes (keeping UTF-8 validity when it is UTF-8) and make sure
+/// an occurrence ends in the last few bytes.
+fn exact_len(rng: &mut Rng, spec: &Spec, h: Vec<u8>, n: usize) -> Vec<u8> {
+    let utf8 = std::str::from_utf8(&h).is_ok() && spec.patterns.iter().all(|p| std::str::from_utf8(p).is_ok());
+    let seed = if h.is_empty() { spec.patterns[0].clone() } else { h };
+    let mut out = Vec::with_capacity(n + 8);
+    while out.len() < n {
+        out.extend_from_slice(&seed);
+    }
+    // cut at a character boundary at or below n, then pad with ASCII to n
+    let mut cut = n;
+    if utf8 {
+        while cut > 0 && (out[cut] & 0xC0) == 0x80 {
+            cut -= 1;
+        }
+    }
+    out.truncate(cut);
+    let p = spec.patterns[rng.below(spec.patterns.len())].clone();
+    if p.len() + 2 <= out.len() && rng.chance(3, 4) {
+        // plant an occurrence so that it ends exactly at the end (after padding)
+        let pad = n - out.len();
+        let mut at = out.len() - p.len();
+        if utf8 {
+            while at > 0 && (out[at] & 0xC0) == 0x80 {
+                at -= 1;
+            }
+        }
+        out.truncate(at);
+        out.extend_from_slice(&p);
+        while out.len() + pad < n {
+            out.push(b'q');
+        }
+        while out.len() < n {
+            out.insert(at, b'q');
+        }
+        out.truncate(n);
+        if utf8 && std::str::from_utf8(&out).is_err() {
+            out = String::from_utf8_lossy(&out).into_owned().into_bytes();
+        }
+    } else {
+        while out.len() < n {
+            out.push(b'q');
+        }
+    }
+    out
+}
+
 /// A long stream (crosses 2^16 bytes, sometimes 2^17): positions that do not fit a narrow
 /// counter, buffers that fill up. Delivered in large bursts, polled in bursts.
 fn generate_long(rng: &mut Rng, spec: Spec) -> Scenario {
@@ -765,6 +817,10 @@ fn generate_long(rng: &mut Rng, spec: Spec) -> Scenario {
     }
     if spec.variant == Variant::Charwise && std::str::from_utf8(&content).is_err() {
         content = String::from_utf8_lossy(&content).into_owned().into_bytes();
+    }
+    if rng.chance(1, 3) {
+        let n = if content.len() > 100_000 { 131_072 } else { 65_536 };
+        content = exact_len(rng, &spec, content, n);
     }
     let nh = rng.range(1, 2);
     let handles: Vec<HandleSpec> = (0..nh)
